@@ -65,7 +65,7 @@ def _is_term_array(fn, e, depth=3):
 
 def G32_library_semantics(repo, clause, scope=ALL_LIB):
     """Natural-looking uses of Python / numpy facilities whose exact semantics are not what the surrounding code needs:
-    (a) str.strip / lstrip / rstrip with a COMPUTED argument (or a literal of several alphanumeric characters) removes any run of those CHARACTERS, not that prefix;
+    (a) str.strip / lstrip / rstrip with an argument computed from the DATA of the current item removes any run of those CHARACTERS, not that prefix (literals and module constants are intended character sets);
     (b) str.split(' ') with a one-blank literal yields empty tokens for runs of blanks, split() does not;
     (c) an np.vectorize object built without `otypes` raises ValueError on size-0 input: it may only be applied under a non-emptiness guard of its argument;
     (d) np.reciprocal of an array that may hold integers (a cell handed in by the user) is integer reciprocal: 0 for every entry > 1;
@@ -91,10 +91,12 @@ def G32_library_semantics(repo, clause, scope=ALL_LIB):
                 a = c.args[0]
                 v = const_value(a)
                 bad = None
+                # an argument built from DATA of the current item (a token of the line, a local computed here) is meant as "this prefix"; a literal or a module-level constant
+                # (string.digits, QUOTES) is an ordinary, intended character set and is not judged
                 if v is None and not isinstance(a, ast.Constant):
-                    bad = "a computed argument"
-                elif isinstance(v, str) and len(v) > 1 and sum(ch.isalnum() for ch in v) >= 1 and not v.isspace():
-                    bad = "the literal %r" % v
+                    local_names = {x.id for x in fn.all_nodes() if isinstance(x, ast.Name) and isinstance(x.ctx, ast.Store)} | set(fn.params)
+                    if any(isinstance(y, ast.Subscript) or (isinstance(y, ast.Name) and y.id in local_names) for y in ast.walk(a)):
+                        bad = "an argument computed from the data (`%s`)" % ast.unparse(a)[:30]
                 cnt["a"] += 1
                 if bad:
                     obs.append(Ob("G32", clause, fn, c, False,
@@ -585,9 +587,12 @@ def E1p_section_protocol(repo, clause, func="Atoms.load_lmpdat"):
     loops = [x for x in fn.own_nodes() if isinstance(x, ast.For)]
     # the state variable: compared with >= 5 different string constants
     cmp_count = {}
-    for c in [x for x in fn.own_nodes() if isinstance(x, ast.Compare) and len(x.ops) == 1 and isinstance(x.ops[0], ast.Eq) and isinstance(x.left, ast.Name)
-              and isinstance(const_value(x.comparators[0]), str)]:
-        cmp_count.setdefault(c.left.id, set()).add(const_value(c.comparators[0]))
+    for c in [x for x in fn.own_nodes() if isinstance(x, ast.Compare) and len(x.ops) == 1 and isinstance(x.ops[0], ast.Eq)]:
+        l_, r_ = c.left, c.comparators[0]
+        if isinstance(r_, ast.Name) and isinstance(const_value(l_), str):
+            l_, r_ = r_, l_        # "Masses" == current_section
+        if isinstance(l_, ast.Name) and isinstance(const_value(r_), str):
+            cmp_count.setdefault(l_.id, set()).add(const_value(r_))
     state = [k for k, v in cmp_count.items() if len(v) >= 5]
     if len(state) != 1:
         return [Ob("E1p", clause, fn, fn.node, False, "section state variable of %s not identified (names compared with >= 5 section names: %s)" % (func, state), construct="current_section == '<name>'",
@@ -595,7 +600,7 @@ def E1p_section_protocol(repo, clause, func="Atoms.load_lmpdat"):
     S = state[0]
     loop = None
     for l in loops:
-        if any(isinstance(x, ast.Compare) and isinstance(x.left, ast.Name) and x.left.id == S for x in ast.walk(l)):
+        if any(isinstance(x, ast.Compare) and any(isinstance(y, ast.Name) and y.id == S for y in [x.left] + list(x.comparators)) for x in ast.walk(l)):
             loop = l
             break
     if loop is None:
